@@ -263,6 +263,63 @@ func c15(run *core.Run, replay string) {
 			run.Violate(sig, d, c)
 		}
 	})
+	// (c) the numeric types in the header name the variants that were really used: a stream written by the current tree for
+	// a chain must be understood by the REFERENCE decoder (vendored snapshot of the pinned commit), which maps every type of the
+	// header to its variant on its own, and the other way round - for every ordered pair of transforms and every triple over
+	// the families whose variant is selected through the shared parameter map (lz, sbrt, pack/dna, rolz, text)
+	type vcase struct {
+		T, E, Shape string
+		Seed        int64
+	}
+	var vcs []vcase
+	for i, a := range kz.Transforms[1:] {
+		for j, b := range kz.Transforms[1:] {
+			vcs = append(vcs, vcase{a + "+" + b, []string{"NONE", "FPAQ", "HUFFMAN"}[(i+j)%3], []string{"text", "dna", "repeatblocks"}[(i*2+j)%3], run.Seed + int64(i*19+j)})
+		}
+	}
+	fam := []string{"LZ", "LZX", "LZP", "RANK", "MTFT", "DNA", "PACK", "ROLZ", "ROLZX", "TEXT", "SRT", "RLT"}
+	for i, a := range fam {
+		for j, b := range fam {
+			for k, c := range fam {
+				if !run.Thorough() && (i+j+k)%3 != 0 && !(a == "RANK" || a == "MTFT" || b == "RANK" || b == "MTFT") {
+					continue
+				}
+				vcs = append(vcs, vcase{a + "+" + b + "+" + c, []string{"NONE", "ANS0", "FPAQ"}[(i+j+k)%3], []string{"dna", "text", "html"}[(i+j*2+k)%3], run.Seed*3 + int64(i*144+j*12+k)})
+			}
+		}
+	}
+	core.ParallelDo(len(vcs), 12, func(i int) {
+		vc := vcs[i]
+		data := gen.Make(vc.Shape, 12000+i%5000, vc.Seed)
+		cf := kz.Cfg{Transform: vc.T, Entropy: vc.E, BlockSize: 8192, Jobs: 1, Checksum: 32}
+		run.Eval(1)
+		refStream, rerr := refCompress(data, cf)
+		if rerr != nil {
+			run.Count("variant_reference_failed_skipped", 1)
+			return
+		}
+		if back, err := refDecompress(refStream, 1, nil); err != nil || !bytes.Equal(back, data) {
+			run.Count("variant_reference_failed_skipped", 1)
+			return
+		}
+		curStream, _, cerr := kz.Compress(data, cf, nil)
+		if cerr != nil {
+			run.Violate(fmt.Sprintf("C15 variant-compress-error chain=%s entropy=%s", vc.T, vc.E), fmt.Sprintf("%s/%s on %s: %v (the reference compresses it)", vc.T, vc.E, vc.Shape, cerr), vc)
+			return
+		}
+		run.Nontrivial("variant|" + vc.T + "|" + vc.E + "|" + vc.Shape)
+		run.Count("variant_cross_decodes", 1)
+		if back, err := refDecompress(curStream, 1, nil); err != nil || !bytes.Equal(back, data) {
+			run.Violate(fmt.Sprintf("C15 header-types-do-not-name-the-variants-used chain=%s entropy=%s", vc.T, vc.E),
+				fmt.Sprintf("the stream the current tree writes for %s/%s (%s, %d bytes) is not decoded to the original by the reference decoder (err=%v): some stage was encoded with another variant than its header type says", vc.T, vc.E, vc.Shape, len(data), err), vc)
+			return
+		}
+		rr := kz.Decompress(refStream, 1, nil)
+		if rr.Err != nil || !bytes.Equal(rr.Out, data) {
+			run.Violate(fmt.Sprintf("C15 header-types-map-to-other-variants chain=%s entropy=%s", vc.T, vc.E),
+				fmt.Sprintf("the reference stream for %s/%s (%s, %d bytes) is not decoded to the original by the current tree (err=%v)", vc.T, vc.E, vc.Shape, len(data), rr.Err), vc)
+		}
+	})
 	for i := 0; i < 6; i++ {
 		run.Sample(cases[(i*7919+1)%len(cases)])
 	}
